@@ -1,11 +1,15 @@
 package main
 
-// FsGen: the source expressions that the hand models of C19/C20 (coq/Fsx) transcribe,
-// rendered as text, plus two structural facts (the localfs Readdir rewinds before its
-// loop; every access to Mapper.paths happens after m.mu.Lock() with a deferred Unlock).
-// coq/Fsx/FsGenSpec.v compares them with the text the models were written from, so
-// an edit of one of these expressions breaks an obligation of C19/C20 even when no
-// generated input happens to expose it.
+// FsGen: what the hand models of C19/C20 (coq/Fsx) transcribe from the source, extracted
+// SEMANTICALLY where that is cheap: comparisons as (smaller side, operator, larger side)
+// with conversions and parentheses removed, additive constants as numbers, shift amounts
+// and mask widths evaluated to numbers (through the package's constants), structural facts
+// as booleans (the localfs Readdir rewinds before its loop; cursor++ precedes the skip test;
+// every function touching Mapper.paths starts with m.mu.Lock(); defer m.mu.Unlock(); the
+// fallback table is keyed by a devino value).  Source text is kept only for two bodies whose
+// statement order is itself the content (Mapper.QIDFor, localToQid); it is rendered by
+// go/printer and white-space normalised, so re-formatting does not change it.
+// coq/Fsx/FsGenSpec.v states the obligations over these definitions.
 
 import (
 	"bytes"
@@ -23,7 +27,115 @@ func fsRender(r *Repo, n ast.Node) string {
 	return strings.Join(strings.Fields(b.String()), " ")
 }
 
-// fsFuncIn finds a function in one named file of a directory (localfs has a unix and a windows variant).
+// conversions that cannot lose bits of the values they are applied to in this code (widening to the 64-bit types);
+// narrowing ones (uint32(x), uint16(x), ...) change the value and are kept.
+var fsConvTypes = map[string]bool{"int": true, "int64": true, "uint": true, "uint64": true}
+
+// fsSem renders an expression canonically: numeric conversions and parentheses dropped,
+// every binary expression fully parenthesised.
+func fsSem(r *Repo, x ast.Expr) string {
+	switch v := x.(type) {
+	case *ast.Ident:
+		return v.Name
+	case *ast.BasicLit:
+		return v.Value
+	case *ast.ParenExpr:
+		return fsSem(r, v.X)
+	case *ast.SelectorExpr:
+		return fsSem(r, v.X) + "." + v.Sel.Name
+	case *ast.UnaryExpr:
+		return v.Op.String() + fsSem(r, v.X)
+	case *ast.BinaryExpr:
+		return "(" + fsSem(r, v.X) + " " + v.Op.String() + " " + fsSem(r, v.Y) + ")"
+	case *ast.IndexExpr:
+		return fsSem(r, v.X) + "[" + fsSem(r, v.Index) + "]"
+	case *ast.SliceExpr:
+		lo, hi := "", ""
+		if v.Low != nil {
+			lo = fsSem(r, v.Low)
+		}
+		if v.High != nil {
+			hi = fsSem(r, v.High)
+		}
+		return fsSem(r, v.X) + "[" + lo + ":" + hi + "]"
+	case *ast.CallExpr:
+		if id, ok := v.Fun.(*ast.Ident); ok && fsConvTypes[id.Name] && len(v.Args) == 1 {
+			return fsSem(r, v.Args[0])
+		}
+		var as []string
+		for _, a := range v.Args {
+			as = append(as, fsSem(r, a))
+		}
+		return fsSem(r, v.Fun) + "(" + strings.Join(as, ", ") + ")"
+	}
+	return fsRender(r, x)
+}
+
+func fsUnparen(x ast.Expr) ast.Expr {
+	for {
+		switch v := x.(type) {
+		case *ast.ParenExpr:
+			x = v.X
+			continue
+		case *ast.CallExpr:
+			if id, ok := v.Fun.(*ast.Ident); ok && fsConvTypes[id.Name] && len(v.Args) == 1 {
+				x = v.Args[0]
+				continue
+			}
+		}
+		return x
+	}
+}
+
+// fsCmp normalises a comparison to (a, op, b) with op one of < <= == != :  a > b becomes b < a.
+func fsCmp(r *Repo, x ast.Expr) (string, string, string, error) {
+	b, ok := fsUnparen(x).(*ast.BinaryExpr)
+	if !ok {
+		return "", "", "", r.Refuse(x.Pos(), "expected a comparison, found %s", fsRender(r, x))
+	}
+	l, rr := fsSem(r, b.X), fsSem(r, b.Y)
+	switch b.Op {
+	case token.LSS, token.LEQ, token.EQL, token.NEQ:
+		return l, b.Op.String(), rr, nil
+	case token.GTR:
+		return rr, "<", l, nil
+	case token.GEQ:
+		return rr, "<=", l, nil
+	}
+	return "", "", "", r.Refuse(x.Pos(), "expected a comparison, found operator %s", b.Op)
+}
+
+// fsSum flattens a chain of + into its non-literal terms (sorted) and the sum of its integer literals.
+func fsSum(r *Repo, e *constEnv, x ast.Expr) ([]string, string, error) {
+	var terms []string
+	total := int64(0)
+	var walk func(x ast.Expr) error
+	walk = func(x ast.Expr) error {
+		x = fsUnparen(x)
+		if b, ok := x.(*ast.BinaryExpr); ok && b.Op == token.ADD {
+			if err := walk(b.X); err != nil {
+				return err
+			}
+			return walk(b.Y)
+		}
+		if _, ok := x.(*ast.BasicLit); ok {
+			n, _, ok := e.eval(x, 0)
+			if !ok || n == nil || !n.IsInt64() {
+				return r.Refuse(x.Pos(), "integer literal expected")
+			}
+			total += n.Int64()
+			return nil
+		}
+		terms = append(terms, fsSem(r, x))
+		return nil
+	}
+	if err := walk(x); err != nil {
+		return nil, "", err
+	}
+	sort.Strings(terms)
+	return terms, fmt.Sprint(total), nil
+}
+
 func fsFuncIn(r *Repo, dir, file, name string) (*ast.FuncDecl, error) {
 	files, err := r.Files(dir)
 	if err != nil {
@@ -53,9 +165,9 @@ func fsFunc(r *Repo, dir, key string) (*ast.FuncDecl, error) {
 	return fd, nil
 }
 
-// fsDirentField finds the value given to field name in the (only) p9.Dirent composite literal below n.
-func fsDirentField(r *Repo, n ast.Node, field string) (string, error) {
-	var vals []string
+// fsDirentField finds the value given to a field in the (only) p9.Dirent composite literal below n.
+func fsDirentField(r *Repo, n ast.Node, field string) (ast.Expr, error) {
+	var vals []ast.Expr
 	lits := 0
 	ast.Inspect(n, func(x ast.Node) bool {
 		cl, ok := x.(*ast.CompositeLit)
@@ -69,25 +181,16 @@ func fsDirentField(r *Repo, n ast.Node, field string) (string, error) {
 		for _, e := range cl.Elts {
 			if kv, ok := e.(*ast.KeyValueExpr); ok {
 				if id, ok := kv.Key.(*ast.Ident); ok && id.Name == field {
-					vals = append(vals, fsRender(r, kv.Value))
+					vals = append(vals, kv.Value)
 				}
 			}
 		}
 		return true
 	})
 	if lits != 1 || len(vals) != 1 {
-		return "", r.Refuse(n.Pos(), "expected one p9.Dirent literal with field %s (found %d literals, %d values)", field, lits, len(vals))
+		return nil, r.Refuse(n.Pos(), "expected one p9.Dirent literal with field %s (found %d literals, %d values)", field, lits, len(vals))
 	}
 	return vals[0], nil
-}
-
-func fsIsCall(x ast.Expr, recv, name string) bool {
-	c, ok := x.(*ast.CallExpr)
-	if !ok {
-		return false
-	}
-	s, ok := c.Fun.(*ast.SelectorExpr)
-	return ok && s.Sel.Name == name && strings.HasSuffix(fsExprText(s.X), recv)
 }
 
 func fsExprText(x ast.Expr) string {
@@ -100,68 +203,172 @@ func fsExprText(x ast.Expr) string {
 	return "?"
 }
 
-func genFs(r *Repo) (string, error) {
-	var b strings.Builder
-	b.WriteString("From Coq Require Import String List.\nImport ListNotations.\nOpen Scope string_scope.\n\n")
-	def := func(name, val string) {
-		fmt.Fprintf(&b, "Definition %s : string := %s.\n", name, CoqString(val))
+func fsIsCall(x ast.Expr, recv, name string) bool {
+	c, ok := x.(*ast.CallExpr)
+	if !ok {
+		return false
 	}
-	defb := func(name string, v bool) {
-		fmt.Fprintf(&b, "Definition %s : bool := %v.\n", name, v)
-	}
+	s, ok := c.Fun.(*ast.SelectorExpr)
+	return ok && s.Sel.Name == name && strings.HasSuffix(fsExprText(s.X), recv)
+}
 
-	// ---- fsimpl/readdir.Readdir ----
+func fsQuoteList(xs []string) string {
+	var q []string
+	for _, x := range xs {
+		q = append(q, CoqString(x))
+	}
+	return strings.Join(q, "; ")
+}
+
+type fsOut struct {
+	b strings.Builder
+}
+
+func (o *fsOut) str(name, val string) {
+	fmt.Fprintf(&o.b, "Definition %s : string := %s.\n", name, CoqString(val))
+}
+func (o *fsOut) boolean(name string, v bool) {
+	fmt.Fprintf(&o.b, "Definition %s : bool := %v.\n", name, v)
+}
+func (o *fsOut) num(name, v string) { fmt.Fprintf(&o.b, "Definition %s : N := %s%%N.\n", name, v) }
+func (o *fsOut) strs(name string, v []string) {
+	fmt.Fprintf(&o.b, "Definition %s : list string := [%s].\n", name, fsQuoteList(v))
+}
+func (o *fsOut) cmp(name, a, op, b string) {
+	fmt.Fprintf(&o.b, "Definition %s : string * string * string := (%s, %s, %s).\n", name, CoqString(a), CoqString(op), CoqString(b))
+}
+
+func fsEvalNum(r *Repo, e *constEnv, x ast.Expr) (string, error) {
+	n, _, ok := e.eval(x, 0)
+	if !ok || n == nil {
+		return "", r.Refuse(x.Pos(), "cannot evaluate %s to a number", fsRender(r, x))
+	}
+	return n.String(), nil
+}
+
+// fsNOnesArg: x must be nOnes(E); returns E evaluated.
+func fsNOnesArg(r *Repo, e *constEnv, x ast.Expr) (string, error) {
+	c, ok := fsUnparen(x).(*ast.CallExpr)
+	if !ok || fsExprText(c.Fun) != "nOnes" || len(c.Args) != 1 {
+		return "", r.Refuse(x.Pos(), "expected nOnes(bits), found %s", fsRender(r, x))
+	}
+	return fsEvalNum(r, e, c.Args[0])
+}
+
+func genFs(r *Repo) (string, error) {
+	o := &fsOut{}
+	o.b.WriteString("From Coq Require Import String List NArith.\nImport ListNotations.\nOpen Scope string_scope.\n\n")
+
+	// ---------------- fsimpl/readdir.Readdir ----------------
 	rd, err := fsFunc(r, "fsimpl/readdir", "Readdir")
 	if err != nil {
 		return "", err
 	}
-	b.WriteString("(* fsimpl/readdir/readdir.go Readdir *)\n")
-	var guard, end, rng string
+	renv, _, err := collectConsts(r, "fsimpl/readdir")
+	if err != nil {
+		return "", err
+	}
+	o.b.WriteString("(* fsimpl/readdir/readdir.go Readdir *)\n")
+	seen := 0
 	for _, st := range rd.Body.List {
 		switch s := st.(type) {
 		case *ast.IfStmt:
-			if guard == "" {
-				guard = fsRender(r, s.Cond) + " => " + fsRender(r, s.Body)
+			if seen&1 != 0 {
+				continue
 			}
+			a, op, b, err := fsCmp(r, s.Cond)
+			if err != nil {
+				return "", err
+			}
+			o.cmp("fs_readdir_guard", a, op, b)
+			empty := false
+			if len(s.Body.List) == 1 {
+				if ret, ok := s.Body.List[0].(*ast.ReturnStmt); ok && len(ret.Results) == 2 &&
+					fsExprText(ret.Results[0]) == "nil" && fsExprText(ret.Results[1]) == "nil" {
+					empty = true
+				}
+			}
+			o.boolean("fs_readdir_guard_returns_empty", empty)
+			seen |= 1
 		case *ast.AssignStmt:
 			if len(s.Lhs) == 1 && fsExprText(s.Lhs[0]) == "end" {
-				end = fsRender(r, s.Rhs[0])
+				o.str("fs_readdir_end", fsSem(r, s.Rhs[0]))
+				seen |= 2
 			}
 		case *ast.RangeStmt:
-			rng = fsRender(r, s.Key) + ", " + fsRender(r, s.Value) + " := range " + fsRender(r, s.X)
+			o.str("fs_readdir_range", fsSem(r, s.X))
+			o.str("fs_readdir_range_index", fsRender(r, s.Key))
+			o.str("fs_readdir_range_value", fsRender(r, s.Value))
+			seen |= 4
 		}
 	}
-	if guard == "" || end == "" || rng == "" {
+	if seen != 7 {
 		return "", r.Refuse(rd.Pos(), "readdir.Readdir: guard / end / range statement not found")
 	}
-	def("fs_readdir_guard", guard)
-	def("fs_readdir_end", end)
-	def("fs_readdir_range", rng)
-	for _, f := range []string{"QID", "Type", "Offset", "Name"} {
+	off, err := fsDirentField(r, rd.Body, "Offset")
+	if err != nil {
+		return "", err
+	}
+	terms, c, err := fsSum(r, renv, off)
+	if err != nil {
+		return "", err
+	}
+	o.strs("fs_readdir_Offset_terms", terms)
+	o.num("fs_readdir_Offset_const", c)
+	for _, f := range []string{"QID", "Type", "Name"} {
 		v, err := fsDirentField(r, rd.Body, f)
 		if err != nil {
 			return "", err
 		}
-		def("fs_readdir_"+f, v)
+		o.str("fs_readdir_"+f, fsSem(r, v))
 	}
 
-	// ---- localfs (*Local).Readdir ----
+	// ---------------- localfs (*Local).Readdir ----------------
 	lr, err := fsFunc(r, "fsimpl/localfs", "Local.Readdir")
 	if err != nil {
 		return "", err
 	}
-	b.WriteString("(* fsimpl/localfs/readdir.go Local.Readdir *)\n")
+	lenv, _, err := collectConsts(r, "fsimpl/localfs")
+	if err != nil {
+		return "", err
+	}
+	o.b.WriteString("(* fsimpl/localfs/readdir.go Local.Readdir *)\n")
 	rewinds := false
+	cursorInit := ""
 	var loop *ast.ForStmt
 	for _, st := range lr.Body.List {
 		if f, ok := st.(*ast.ForStmt); ok {
 			loop = f
 			break
 		}
+		// an unconditional statement of the function body (not nested in another if) that calls Seek(0, io.SeekStart)
+		top := st
+		if is, ok := st.(*ast.IfStmt); ok && is.Init != nil {
+			top = is.Init // `if _, err := l.file.Seek(...); err != nil {` : the call is in the init, always executed
+		} else if ok {
+			top = nil // a Seek nested under a condition does not count
+		}
+		if top != nil {
+			ast.Inspect(top, func(x ast.Node) bool {
+				if c, ok := x.(*ast.CallExpr); ok && fsIsCall(c, "l.file", "Seek") && len(c.Args) == 2 &&
+					fsSem(r, c.Args[0]) == "0" && fsSem(r, c.Args[1]) == "io.SeekStart" {
+					rewinds = true
+				}
+				return true
+			})
+		}
 		ast.Inspect(st, func(x ast.Node) bool {
-			if c, ok := x.(*ast.CallExpr); ok && fsIsCall(c, "l.file", "Seek") && len(c.Args) == 2 &&
-				fsRender(r, c.Args[0]) == "0" && fsRender(r, c.Args[1]) == "io.SeekStart" {
-				rewinds = true
+			if vs, ok := x.(*ast.ValueSpec); ok {
+				for i, n := range vs.Names {
+					if n.Name == "cursor" && i < len(vs.Values) {
+						if v, err := fsEvalNum(r, lenv, vs.Values[i]); err == nil {
+							cursorInit = v
+						}
+					}
+				}
+			}
+			if as, ok := x.(*ast.AssignStmt); ok && len(as.Lhs) == 1 && fsExprText(as.Lhs[0]) == "cursor" {
+				cursorInit = "assigned: " + fsSem(r, as.Rhs[0])
 			}
 			return true
 		})
@@ -169,73 +376,99 @@ func genFs(r *Repo) (string, error) {
 	if loop == nil || loop.Cond == nil || loop.Init != nil || loop.Post != nil {
 		return "", r.Refuse(lr.Pos(), "Local.Readdir: expected `for cond { ... }`")
 	}
-	defb("fs_local_rewinds", rewinds)
-	def("fs_local_loop_cond", fsRender(r, loop.Cond))
-	// the statements of the loop body, in order, as a skeleton: read / EOF test / cursor++ / skip test / append
-	var skel []string
+	o.boolean("fs_local_rewinds", rewinds)
+	o.str("fs_local_cursor_init", cursorInit)
+	a, op, b, err := fsCmp(r, loop.Cond)
+	if err != nil {
+		return "", err
+	}
+	o.cmp("fs_local_loop_cond", a, op, b)
+	// order of events in the loop body: read(n) / eof-return / incr / skip / entry
+	var events []string
+	var rest []string
 	for _, st := range loop.Body.List {
 		switch s := st.(type) {
 		case *ast.AssignStmt:
-			skel = append(skel, fsRender(r, s))
-		case *ast.IncDecStmt:
-			skel = append(skel, fsRender(r, s))
-		case *ast.IfStmt:
-			txt := "if " + fsRender(r, s.Cond)
-			if len(s.Body.List) == 1 {
-				txt += " { " + fsRender(r, s.Body.List[0]) + " }"
-			} else {
-				txt += " {...}"
+			if len(s.Rhs) == 1 && fsIsCall(s.Rhs[0], "l.file", "Readdirnames") {
+				c := s.Rhs[0].(*ast.CallExpr)
+				events = append(events, "read "+fsSem(r, c.Args[0]))
+				continue
 			}
-			if s.Else != nil {
-				if ei, ok := s.Else.(*ast.IfStmt); ok {
-					txt += " else if " + fsRender(r, ei.Cond)
+			if len(s.Rhs) == 1 {
+				if _, err := fsDirentField(r, s, "Offset"); err == nil {
+					events = append(events, "entry")
+					continue
 				}
 			}
-			skel = append(skel, txt)
+			rest = append(rest, fsRender(r, s))
+		case *ast.IncDecStmt:
+			if fsExprText(s.X) == "cursor" && s.Tok == token.INC {
+				events = append(events, "incr")
+			} else {
+				return "", r.Refuse(st.Pos(), "Local.Readdir loop: %s", fsRender(r, s))
+			}
+		case *ast.IfStmt:
+			if len(s.Body.List) == 1 {
+				if br, ok := s.Body.List[0].(*ast.BranchStmt); ok && br.Tok == token.CONTINUE && s.Else == nil {
+					a, op, b, err := fsCmp(r, s.Cond)
+					if err != nil {
+						return "", err
+					}
+					o.cmp("fs_local_skip", a, op, b)
+					events = append(events, "skip")
+					continue
+				}
+				if ret, ok := s.Body.List[0].(*ast.ReturnStmt); ok && fsSem(r, s.Cond) == "(err == io.EOF)" {
+					events = append(events, "eof-return "+fsSem(r, ret.Results[0])+", "+fsSem(r, ret.Results[1]))
+					continue
+				}
+			}
+			rest = append(rest, "if "+fsRender(r, s.Cond)+" "+fsRender(r, s.Body))
 		default:
 			return "", r.Refuse(st.Pos(), "Local.Readdir loop: statement kind %T", st)
 		}
 	}
-	fmt.Fprintf(&b, "Definition fs_local_loop_body : list string := [\n")
-	for i, s := range skel {
-		sep := ";"
-		if i == len(skel)-1 {
-			sep = ""
-		}
-		fmt.Fprintf(&b, "  %s%s\n", CoqString(s), sep)
-	}
-	b.WriteString("].\n")
+	o.strs("fs_local_loop_events", events)
+	o.strs("fs_local_loop_rest", rest)
 	for _, f := range []string{"QID", "Type", "Offset", "Name"} {
 		v, err := fsDirentField(r, loop.Body, f)
 		if err != nil {
 			return "", err
 		}
-		def("fs_local_"+f, v)
+		o.str("fs_local_"+f, fsSem(r, v))
 	}
 
-	// ---- p9 rreaddir.encode: the truncation test ----
+	// ---------------- p9 rreaddir.encode: the truncation test ----------------
 	re, err := fsFunc(r, "p9", "rreaddir.encode")
 	if err != nil {
 		return "", err
 	}
-	b.WriteString("(* p9/messages.go rreaddir.encode *)\n")
-	brk := ""
+	o.b.WriteString("(* p9/messages.go rreaddir.encode *)\n")
+	var brk ast.Expr
 	ast.Inspect(re.Body, func(x ast.Node) bool {
 		if s, ok := x.(*ast.IfStmt); ok && len(s.Body.List) == 1 {
 			if br, ok := s.Body.List[0].(*ast.BranchStmt); ok && br.Tok == token.BREAK {
-				brk = fsRender(r, s.Cond)
+				brk = s.Cond
 			}
 		}
 		return true
 	})
-	if brk == "" {
+	if brk == nil {
 		return "", r.Refuse(re.Pos(), "rreaddir.encode: `if cond { break }` not found")
 	}
-	def("fs_rreaddir_break", brk)
+	a, op, b, err = fsCmp(r, brk)
+	if err != nil {
+		return "", err
+	}
+	o.cmp("fs_rreaddir_break", a, op, b)
 
-	// ---- qids.go: Mapper.paths is only touched under m.mu ----
-	b.WriteString("(* fsimpl/qids/qids.go *)\n")
+	// ---------------- qids.go ----------------
+	o.b.WriteString("(* fsimpl/qids/qids.go *)\n")
 	qfd, err := r.FuncDecls("fsimpl/qids")
+	if err != nil {
+		return "", err
+	}
+	qenv, _, err := collectConsts(r, "fsimpl/qids")
 	if err != nil {
 		return "", err
 	}
@@ -262,25 +495,52 @@ func genFs(r *Repo) (string, error) {
 			continue
 		}
 		touching = append(touching, k)
-		// first statement m.mu.Lock(), second defer m.mu.Unlock()
 		ok := len(fd.Body.List) >= 2
 		if ok {
 			es, ok1 := fd.Body.List[0].(*ast.ExprStmt)
 			ds, ok2 := fd.Body.List[1].(*ast.DeferStmt)
 			ok = ok1 && ok2 && fsIsCall(es.X, "m.mu", "Lock") && fsIsCall(ds.Call, "m.mu", "Unlock")
 		}
+		// no further Lock/Unlock of m.mu inside (the critical section is the whole body)
+		if ok {
+			n := 0
+			ast.Inspect(fd.Body, func(x ast.Node) bool {
+				if c, isCall := x.(*ast.CallExpr); isCall && (fsIsCall(c, "m.mu", "Lock") || fsIsCall(c, "m.mu", "Unlock")) {
+					n++
+				}
+				return true
+			})
+			ok = n == 2
+		}
 		if !ok {
 			guarded = false
 		}
 	}
-	defb("fs_mapper_paths_guarded", guarded)
-	fmt.Fprintf(&b, "Definition fs_mapper_paths_users : list string := [%s].\n", fsQuoteList(touching))
+	o.boolean("fs_mapper_paths_guarded", guarded)
+	o.strs("fs_mapper_paths_users", touching)
 	np, err := fsFunc(r, "fsimpl/qids", "PathGenerator.NewPath")
 	if err != nil {
 		return "", err
 	}
-	def("fs_newpath_body", fsRender(r, np.Body))
-	qf, _ := fsFunc(r, "fsimpl/qids", "Mapper.QIDFor")
+	delta := ""
+	if len(np.Body.List) == 1 {
+		if ret, ok := np.Body.List[0].(*ast.ReturnStmt); ok && len(ret.Results) == 1 {
+			if c, ok := ret.Results[0].(*ast.CallExpr); ok && fsExprText(c.Fun) == "atomic.AddUint64" && len(c.Args) == 2 &&
+				fsSem(r, c.Args[0]) == "&g.uids" {
+				if v, err := fsEvalNum(r, qenv, c.Args[1]); err == nil {
+					delta = v
+				}
+			}
+		}
+	}
+	if delta == "" {
+		return "", r.Refuse(np.Pos(), "NewPath: expected `return atomic.AddUint64(&g.uids, K)`")
+	}
+	o.num("fs_newpath_delta", delta)
+	qf, err := fsFunc(r, "fsimpl/qids", "Mapper.QIDFor")
+	if err != nil {
+		return "", err
+	}
 	var qstm []string
 	for _, st := range qf.Body.List {
 		switch s := st.(type) {
@@ -296,33 +556,121 @@ func genFs(r *Repo) (string, error) {
 			qstm = append(qstm, fsRender(r, st))
 		}
 	}
-	fmt.Fprintf(&b, "Definition fs_qidfor_body : list string := [%s].\n", fsQuoteList(qstm))
+	o.strs("fs_qidfor_body", qstm)
 
-	// ---- localfs system_unix.go: encodeLikely, localToQid, init ----
-	b.WriteString("(* fsimpl/localfs/system_unix.go *)\n")
+	// ---------------- localfs system_unix.go ----------------
+	o.b.WriteString("(* fsimpl/localfs/system_unix.go *)\n")
 	el, err := fsFuncIn(r, "fsimpl/localfs", "system_unix.go", "encodeLikely")
 	if err != nil {
 		return "", err
 	}
-	var est []string
+	// statement by statement; every statement must be one of the recognised shapes
+	var orTerms []string
+	var shape []string
 	for _, st := range el.Body.List {
 		switch s := st.(type) {
+		case *ast.AssignStmt:
+			lhs := fsExprText(s.Lhs[0])
+			rhs := fsUnparen(s.Rhs[0])
+			switch {
+			case s.Tok == token.DEFINE && lhs == "inoLikely":
+				v, err := fsNOnesArg(r, lenv, rhs)
+				if err != nil {
+					return "", err
+				}
+				o.num("fs_enc_ino_bits", v)
+				shape = append(shape, "inoLikely")
+			case s.Tok == token.DEFINE && lhs == "upperUnlikely":
+				b, ok := rhs.(*ast.BinaryExpr)
+				if !ok || b.Op != token.SHL {
+					return "", r.Refuse(st.Pos(), "upperUnlikely: expected nOnes(a) << b")
+				}
+				v, err := fsNOnesArg(r, lenv, b.X)
+				if err != nil {
+					return "", err
+				}
+				w, err := fsEvalNum(r, lenv, b.Y)
+				if err != nil {
+					return "", err
+				}
+				o.num("fs_enc_upper_bits", v)
+				o.num("fs_enc_upper_offset", w)
+				shape = append(shape, "upperUnlikely")
+			case s.Tok == token.DEFINE && (lhs == "major" || lhs == "minor"):
+				o.str("fs_enc_"+lhs+"_def", fsSem(r, rhs))
+				shape = append(shape, lhs)
+			case s.Tok == token.DEFINE && lhs == "q":
+				o.str("fs_enc_q_init", fsSem(r, rhs))
+				shape = append(shape, "q")
+			case s.Tok == token.OR_ASSIGN && lhs == "q":
+				b, ok := rhs.(*ast.BinaryExpr)
+				if !ok || b.Op != token.SHL {
+					return "", r.Refuse(st.Pos(), "q |= : expected x << amount")
+				}
+				w, err := fsEvalNum(r, lenv, b.Y)
+				if err != nil {
+					return "", err
+				}
+				orTerms = append(orTerms, fmt.Sprintf("(%s, %s%%N)", CoqString(fsSem(r, b.X)), w))
+				shape = append(shape, "or")
+			default:
+				return "", r.Refuse(st.Pos(), "encodeLikely: %s", fsRender(r, s))
+			}
 		case *ast.IfStmt:
-			est = append(est, "if "+fsRender(r, s.Cond)+" "+fsRender(r, s.Body))
+			// every guard returns (0, false)
+			if len(s.Body.List) != 1 {
+				return "", r.Refuse(st.Pos(), "encodeLikely: guard body")
+			}
+			ret, ok := s.Body.List[0].(*ast.ReturnStmt)
+			if !ok || len(ret.Results) != 2 || fsSem(r, ret.Results[0]) != "0" || fsSem(r, ret.Results[1]) != "false" {
+				return "", r.Refuse(st.Pos(), "encodeLikely: guard must return 0, false")
+			}
+			a, op, b, err := fsCmp(r, s.Cond)
+			if err != nil {
+				return "", err
+			}
+			// nOnes(K) on either side is replaced by its evaluated width
+			fix := func(side string, x ast.Expr) string {
+				if v, err := fsNOnesArg(r, lenv, x); err == nil {
+					return "nOnes " + v
+				}
+				return side
+			}
+			be := fsUnparen(s.Cond).(*ast.BinaryExpr)
+			l2, r2 := fix(fsSem(r, be.X), be.X), fix(fsSem(r, be.Y), be.Y)
+			if be.Op == token.GTR || be.Op == token.GEQ {
+				l2, r2 = r2, l2
+			}
+			_ = a
+			_ = b
+			shape = append(shape, "guard "+l2+" "+op+" "+r2)
+		case *ast.ReturnStmt:
+			shape = append(shape, "return "+fsSem(r, s.Results[0])+", "+fsSem(r, s.Results[1]))
 		default:
-			est = append(est, fsRender(r, st))
+			return "", r.Refuse(st.Pos(), "encodeLikely: statement kind %T", st)
 		}
 	}
-	fmt.Fprintf(&b, "Definition fs_encodeLikely_body : list string := [%s].\n", fsQuoteList(est))
+	fmt.Fprintf(&o.b, "Definition fs_enc_or_terms : list (string * N) := [%s].\n", strings.Join(orTerms, "; "))
+	o.strs("fs_enc_shape", shape)
 	no, err := fsFuncIn(r, "fsimpl/localfs", "system_unix.go", "nOnes")
 	if err != nil {
 		return "", err
 	}
-	def("fs_nOnes_body", fsRender(r, no.Body))
+	nob := ""
+	if len(no.Body.List) == 1 {
+		if ret, ok := no.Body.List[0].(*ast.ReturnStmt); ok && len(ret.Results) == 1 {
+			nob = fsSem(r, ret.Results[0])
+		}
+	}
+	o.str("fs_nOnes", nob)
+
 	lq, err := fsFuncIn(r, "fsimpl/localfs", "system_unix.go", "localToQid")
 	if err != nil {
 		return "", err
 	}
+	keyIsValue, keyFields := false, ""
+	addDelta := ""
+	sameKey := true
 	var lst []string
 	for _, st := range lq.Body.List {
 		switch s := st.(type) {
@@ -335,29 +683,59 @@ func genFs(r *Repo) (string, error) {
 		default:
 			lst = append(lst, fsRender(r, st))
 		}
+		if as, ok := st.(*ast.AssignStmt); ok && len(as.Lhs) == 1 && fsExprText(as.Lhs[0]) == "di" {
+			if cl, ok := as.Rhs[0].(*ast.CompositeLit); ok && fsExprText(cl.Type) == "devino" {
+				keyIsValue = true
+				var fs []string
+				for _, e := range cl.Elts {
+					fs = append(fs, fsSem(r, e))
+				}
+				keyFields = strings.Join(fs, ", ")
+			}
+		}
+		ast.Inspect(st, func(x ast.Node) bool {
+			c, ok := x.(*ast.CallExpr)
+			if !ok {
+				return true
+			}
+			if fsIsCall(c, "qids", "Load") || fsIsCall(c, "qids", "LoadOrStore") {
+				if len(c.Args) == 0 || fsSem(r, c.Args[0]) != "di" {
+					sameKey = false
+				}
+			}
+			if fsIsCall(c, "nextQid", "Add") && len(c.Args) == 1 {
+				if v, err := fsEvalNum(r, lenv, c.Args[0]); err == nil {
+					addDelta = v
+				}
+			}
+			return true
+		})
 	}
-	fmt.Fprintf(&b, "Definition fs_localToQid_body : list string := [%s].\n", fsQuoteList(lst))
+	o.boolean("fs_fallback_key_is_value", keyIsValue && sameKey)
+	o.str("fs_fallback_key_fields", keyFields)
+	if addDelta == "" {
+		return "", r.Refuse(lq.Pos(), "localToQid: nextQid.Add(K) not found")
+	}
+	o.num("fs_fallback_add_delta", addDelta)
+	o.strs("fs_localToQid_body", lst)
 	ini, err := fsFuncIn(r, "fsimpl/localfs", "system_unix.go", "init")
 	if err != nil {
 		return "", err
 	}
 	store := ""
 	ast.Inspect(ini.Body, func(x ast.Node) bool {
-		if c, ok := x.(*ast.CallExpr); ok && fsIsCall(c, "nextQid", "Store") {
-			store = fsRender(r, c)
+		if c, ok := x.(*ast.CallExpr); ok && fsIsCall(c, "nextQid", "Store") && len(c.Args) == 1 {
+			if v, err := fsEvalNum(r, lenv, c.Args[0]); err == nil {
+				store = v
+			}
 		}
 		return true
 	})
-	def("fs_nextQid_init", store)
-	return b.String(), nil
-}
-
-func fsQuoteList(xs []string) string {
-	var q []string
-	for _, x := range xs {
-		q = append(q, CoqString(x))
+	if store == "" {
+		return "", r.Refuse(ini.Pos(), "init: nextQid.Store(K) not found")
 	}
-	return strings.Join(q, "; ")
+	o.num("fs_nextQid_init", store)
+	return o.b.String(), nil
 }
 
 func init() { register(Generator{Name: "FsGen", Run: genFs}) }
